@@ -70,10 +70,11 @@ func (s *Sim) hook(label, path string) {
 
 func (s *Sim) sendPoint(n *SendNode, label, path string) {
 	s.stat("h1:" + label)
+	s.stat(fmt.Sprintf("h1:%s:s%d", label, n.inc))
 	if n.isDead() {
 		return
 	}
-	if s.sendCrashLabel == label {
+	if s.sendCrashLabel == label && n.inc == 0 {
 		s.mu.Lock()
 		s.sendCrashSeen++
 		hit := s.sendCrashSeen == s.sendCrashAt
@@ -225,12 +226,24 @@ func (d *gkDeco) Prepare(parts []sts.Binned) {
 			descs[i] = descOfDecoded(p)
 		}
 		d.s.ob.onPrepare(d, descs)
+		if d.s.w2m != nil {
+			d.s.w2m.onGKCall(d, "Prepare")
+			d.s.w2m.onPrepare(d, descs)
+		}
 	}
 	d.gk.Prepare(parts)
 }
 
 func (d *gkDeco) Receive(file *sts.Partial, r io.Reader) error {
 	hr := &hashReader{r: r, h: md5.New()}
+	if d.s.w2m != nil && !d.n.isDead() {
+		d.s.w2m.onGKCall(d, "Receive")
+		pd := partDesc{Name: file.Name, Hash: file.Hash, Size: file.Size}
+		if len(file.Parts) == 1 {
+			pd.Beg, pd.End = file.Parts[0].Beg, file.Parts[0].End
+		}
+		defer d.s.w2m.beginReceive(d, pd, hr)()
+	}
 	if inj := d.s.recvErrInject; inj != nil && !d.n.isDead() {
 		if err := inj(d, file); err != nil {
 			return err
@@ -353,9 +366,10 @@ func (x *storeDeco) opener(park bool) sts.Open {
 func (x *storeDeco) Remove(f sts.File) error {
 	// nested inside Cache.Done (under the cache lock): an observation of that
 	// action; called directly by the scan clean-up: an action of its own
-	if !x.d.inDone.Load() {
-		x.d.act("store.remove", f.GetName(), false)
-	}
+	// Never a gate: sts decides to delete after a stat of the same path, and
+	// parking here would let the environment replace the file inside that
+	// check-then-unlink window, which POSIX gives sts no means to close
+	// (stated limit in DESIGN.md). It counts as part of the enclosing action.
 	if x.d.n.isDead() {
 		return fmt.Errorf("dead")
 	}
